@@ -3,6 +3,10 @@ OBLIGATIONS = [
     dict(name="makelist", src="list.c", include=["asmlist.c"], units=["asmdef.c"], stubs=["diag.c"], defs=["STRINGSIZE=16"], unwind=24, object_bits=14, unwind_fn={"harness": 30},
          functions=["asmlist.c:MakeList"], bounds="code of 1..8 bytes, granularity 1/2/4, listing word = unit or byte, any PC < 2^32, phase < 4096, emit/reserve",
          assumes=["listing formatter replaced by a token recorder keyed on the format strings of MakeList", "list radix 16, listing on, no include nesting", "little-endian host"]),
+    dict(name="perline_reset", src="perline.c", include=["as.c"], units=["asmdef.c"], stubs=["fmt_off.c"], defs=["STRINGSIZE=16", "FMT_OFF_NO_PRINTF"], nobody_mode="nondet",
+         cuts={"as.c": ["InputEnd", "GetNextLine", "SplitLine", "Produce_Code", "ExpandINCLUDE_Core"]}, unwind=8, mem_gb=20, timeout=900,
+         functions=["as.c:ProcessFile"], bounds="3 source lines, each statement leaving arbitrary annotation / code length / reservation flag behind",
+         assumes=["line reader, splitter, statement execution and MakeList replaced by stubs/recorders (MakeList clears nothing, as under a suppressed listing)"]),
 ]
 META = dict(outside=["symbol table of the listing / MAP / share file (tree walk + number formatting)", "MAP line entries, NoICE/Atmel formats (pending)", "list radix other than 16"],
             assumptions=["malloc never fails"])
